@@ -1,3 +1,4 @@
+import Firebolt.Properties.TransBase
 import Firebolt.Properties.C01
 import Firebolt.Properties.ExecFlow
 import Firebolt.Properties.ExecNet
@@ -97,6 +98,24 @@ theorem source_metricsNode : GeneratedSrc.metricsNode = ExpectedSrc.metricsNode 
 
 /-! ### influence closure: the pinned functions, and every function of the repository that writes a struct field or package
 variable they read, are unchanged (digests regenerated from /repo on every run; a difference names the functions) -/
+/-! ### The code itself, translated (`Generated/Trans.lean`, rewritten from /repo on every run by extractor/translate.go)
+
+The `translated_*` theorems are about MiniGo terms the translator produced from the current Go source: for every
+environment the translated fragment does what the hand-written model function says.  They are semantic obligations —
+a rewrite that preserves the behaviour keeps them provable, a changed comparison, bound or argument does not. -/
+section Translated
+open Firebolt.MiniGo Firebolt.TransBase
+
+/-- exactly one of the three outcome counters' call sites is reached per handled result (the failure counter is
+incremented inside handleFailure) -/
+theorem translated_one_outcome_counter (σ : Env) :
+    let cs := (obs Trans.handleResult σ).calls.map (·.1)
+    (cs.count "nc.handleFailure" + cs.count "metrics.Node().Filtered.WithLabelValues(nc.Config.ID).Inc"
+      + cs.count "metrics.Node().Successes.WithLabelValues(nc.Config.ID).Inc") = 1 := by
+  rw [C01.translated_handleResult]
+  by_cases h1 : σ "err" = 0 <;> by_cases h2 : σ "len(result)" = 0 <;> simp [h1, h2, List.count_cons]
+end Translated
+
 theorem closure_unchanged : GeneratedClo.C16 = ExpectedClo.C16 := by rfl
 
 end Firebolt.C16
